@@ -152,7 +152,7 @@ func c04SweepHandler(args []string, data []byte) string {
 		if idx < lo {
 			return true
 		}
-		if time.Since(began) > 10*time.Second {
+		if n > 0 && time.Since(began) > 10*time.Second { // at least one item per call, however slow the machine
 			// hand back to the parent so that a long sweep is not mistaken for a call that does not return
 			verdict = fmt.Sprintf("MORE n=%d next=%d", n, idx)
 			return false
